@@ -512,8 +512,13 @@ class UnixTransport(TransportMixIn, XMLTransport):
         if self._connection and host == self._connection[0]:
             return self._connection[1]
 
-        # create a HTTP connection object from a host descriptor
-        path, self._extra_headers, _ = self.get_host_info(host)
+        if self.__unix_path:
+            # A socket path is not a host descriptor (it may contain '@')
+            path, self._extra_headers = self.__unix_path, []
+        else:
+            # create a HTTP connection object from a host descriptor
+            path, self._extra_headers, _ = self.get_host_info(host)
+
         self._connection = host, UnixHTTPConnection(path)
         return self._connection[1]
 
